@@ -813,7 +813,17 @@ func runC18(c *Ctx) {
 			fns = append(fns, ci)
 		}
 		if rb := p.Method(core.PkgProto, "Block", "DecodeRawBlock"); rb != nil {
-			fns = append(fns, rb)
+			// the no-target path may have been moved into a helper: take the function that reads the flag
+			holder := rb
+			isBool := func(f *types.Func) bool { return core.IsMethod(f, core.PkgProto, "Reader", "Bool") }
+			if len(core.FindCalls(rb, isBool)) == 0 {
+				for _, call := range core.Calls(rb) {
+					if sf := core.StaticFn(call); sf != nil && sf.Blocks != nil && pkgOf(sf) != nil && pkgOf(sf).Path() == core.PkgProto && len(core.FindCalls(sf, isBool)) > 0 && core.RecvNamed2(sf) == nil {
+						holder = sf
+					}
+				}
+			}
+			fns = append(fns, holder)
 		}
 		for _, fn := range fns {
 			key := core.FuncName(fn)
